@@ -473,3 +473,35 @@ Proof.
     + intros H. inversion H; subst. rewrite Ea in Eb. inversion Eb; subst.
       assert (str_eqb b b = true) by now apply str_eqb_eq. congruence.
 Qed.
+
+(* a negative coordinate in any of the four positions of xl_range is rejected (the first corner is converted first;
+   when it is legal the second corner is reached and refused) *)
+Lemma range_negative_rejected_lemma (r1 c1 r2 c2 : Z) :
+  (r1 < 0 \/ c1 < 0 \/ r2 < 0 \/ c2 < 0)%Z -> xl_range r1 c1 r2 c2 = Err IndexError.
+Proof.
+  intros H. unfold xl_range.
+  destruct (Z.ltb_spec r1 0) as [Hr1|Hr1].
+  { rewrite (negative_rejected_lemma r1 c1 false false) by lia. reflexivity. }
+  destruct (Z.ltb_spec c1 0) as [Hc1|Hc1].
+  { rewrite (negative_rejected_lemma r1 c1 false false) by lia. reflexivity. }
+  destruct (cell_ok r1 c1 false false Hr1 Hc1) as [a Ea]. rewrite Ea. cbn [bind].
+  rewrite (negative_rejected_lemma r2 c2 false false) by lia. reflexivity.
+Qed.
+
+(* the two ends of a printed range are the two corners, in the order given *)
+Lemma range_corners_lemma r1 c1 r2 c2 :
+  (0 <= r1)%Z -> (0 <= r2)%Z -> (0 <= c1 < 18278)%Z -> (0 <= c2 < 18278)%Z -> (r1, c1) <> (r2, c2) ->
+  exists a b, xl_range r1 c1 r2 c2 = Ok (a ++ [c_colon] ++ b) /\
+              xl_cell_to_rowcol a = Ok (r1, c1) /\ xl_cell_to_rowcol b = Ok (r2, c2).
+Proof.
+  intros Hr1 Hr2 Hc1 Hc2 Hne.
+  destruct (cell_ok r1 c1 false false Hr1 ltac:(lia)) as [a Ea].
+  destruct (cell_ok r2 c2 false false Hr2 ltac:(lia)) as [b Eb].
+  pose proof (a1_roundtrip_lemma r1 c1 false false Hr1 Hc1) as Ra.
+  pose proof (a1_roundtrip_lemma r2 c2 false false Hr2 Hc2) as Rb.
+  rewrite Ea in Ra. rewrite Eb in Rb. cbn [bind] in Ra, Rb.
+  exists a, b. unfold xl_range. rewrite Ea, Eb. cbn [bind].
+  destruct (str_eqb a b) eqn:E.
+  - apply str_eqb_eq in E. subst b. rewrite Ra in Rb. congruence.
+  - auto.
+Qed.
